@@ -1130,7 +1130,7 @@ class C15Run(OnionRun):
         self.await_all = bool(self.await_param)
         self.keyform = 'none'
         if self.kind == 'eph':
-            self.keyform = ['none', 'supplied', 'discard'][ch.weighted([4, 1, 1], 'key')]
+            self.keyform = ['none', 'supplied', 'discard', 'crlf'][ch.weighted([8, 2, 2, 1], 'key')]
             if self.keyform == 'discard' and self.auth and not self.g_auth_discard:
                 self.keyform = 'none'
         n_own = 1 + ch.draw(4, 'nown')
@@ -1166,6 +1166,8 @@ class C15Run(OnionRun):
         # a second (ephemeral) service created on the same connection while the first creation is under way:
         # at a drawn step, or at the instant Tor receives the SETEVENTS that drops HS_DESC for the first one
         self.second_mode = [None, 'at-step', 'at-unsubscribe'][ch.weighted([4, 1, 1], 'second')]
+        if self.keyform == 'crlf':
+            self.second_mode = None     # (the first creation never reaches Tor; the bookkeeping below assumes it does)
         self.second_at = ch.draw(40, 'secondat')
         self.second_ndirs = 1 + ch.draw(2, 'seconddirs')
         self.second_started = False
@@ -1294,6 +1296,11 @@ class C15Run(OnionRun):
             key = O.DISCARD
         elif self.keyform == 'supplied':
             key = ('RSA1024:' + RSA_KEYS[USER_RSA[0]][0]) if self.version == 2 else USER_V3[0]
+        elif self.keyform == 'crlf':
+            # a key the library refuses by itself: the creation fails at once, before Tor has answered anything
+            key = ('RSA1024:' + RSA_KEYS[USER_RSA[0]][0][:24] + '\r\n' + RSA_KEYS[USER_RSA[0]][0][24:]) if self.version == 2 \
+                else USER_V3[0][:24] + '\n' + USER_V3[0][24:]
+            sim.probe('creation-refused-locally')
         hsdir = os.path.join(self.root, 'hs_main')
         if self.reject:
             sim.probe('creating-command-rejected')
@@ -1357,6 +1364,8 @@ class C15Run(OnionRun):
             len(state[1]), len(state[0]), len(state[2]), len(state[3]))
         self.emitted_at_fire = self.own_emitted
         if w.ok:
+            if self.keyform == 'crlf':
+                self.fail('C15.success-with-unusable-key', 'create() succeeded although the key contains a line break')
             if self.reply_code != 250 or not self.reply_delivered():
                 self.fail('C15.success-without-accepted-command',
                           'create() succeeded but the creating command had not been answered 250 (reply: %r)' % (self.reply_code,))
@@ -1378,6 +1387,9 @@ class C15Run(OnionRun):
             return
         f = w.value
         what = '%s: %s' % (f.type.__name__, _norm_err(f.getErrorMessage())[:120])
+        if self.keyform == 'crlf':
+            self.outcome = 'refused-locally'
+            return
         if self.reply_code is not None and self.reply_code >= 500 and self.reply_delivered():
             self.outcome = 'rejected'
             return
@@ -1466,7 +1478,8 @@ class C15Run(OnionRun):
                 self.fail('C15.listener-left-after-%s' % how,
                           'create() (%s) has %s, yet at quiescence the HS_DESC subscription is still there (HS_DESC in '
                           'TorControlProtocol.events: %s; last SETEVENTS received by Tor: %r; AlreadyCalledError seen: %d)' % (
-                              self.api, {'success': 'completed', 'rejected': 'failed because Tor rejected the creating command'}.get(
+                              self.api, {'success': 'completed', 'rejected': 'failed because Tor rejected the creating command',
+                                         'refused-locally': 'failed at once because the library refused the key'}.get(
                                   self.outcome, 'failed because every upload failed'), left, ' '.join(last), sim.already_called))
         if sim.already_called:
             self.fail('C15.completed-twice', 'a Deferred of the descriptor wait was fired a second time (%d AlreadyCalledError)' % sim.already_called)
@@ -1495,7 +1508,9 @@ class C14Run(OnionRun):
         c['clients'] = None
         if c['api'] == 'auth':
             n = ch.draw(4, 'nclients')
-            c['clients'] = [(CLIENT_NAMES[k], CLIENT_BLOBS[k % len(CLIENT_BLOBS)] if ch.chance(1, 2, 'token') else None)
+            # names of one and two characters are legal too (a two-character name is also a 2-sequence)
+            pool = CLIENT_NAMES if ch.chance(1, 2, 'shortnames') else ['bo', 'x', 'alice', 'y2']
+            c['clients'] = [(pool[k], CLIENT_BLOBS[k % len(CLIENT_BLOBS)] if ch.chance(1, 2, 'token') else None)
                             for k in range(n)]
         nports = 1 + ch.draw(3, 'nports')
         c['ports'] = []
@@ -1929,6 +1944,34 @@ class C17Run(OnionRun):
         self.final_checks()
         if step == 'reject' and self.listen.fired and not self.listen.ok and self.conn is not None and not self.conn.client_gone:
             self.retry_listen(ep)
+        if step.startswith('disconnect') and self.listen.fired and not self.listen.ok and self.conn is not None and self.conn.client_gone \
+                and c['form'] != 'string':
+            self.listen_after_disconnect(ep)
+
+    def listen_after_disconnect(self, ep):
+        """the control connection is gone; asked to listen again, the endpoint must fail (not hang) and keep no listener"""
+        from twisted.internet.protocol import Factory
+        sim = self.sim
+        sim.draining = False
+        sim.probe('listen-again-after-disconnect')
+        sim.log('op', 'listen-again-after-disconnect')
+        second = Watch(self, 'listen() after the loss')
+        second.attach(ep.listen(Factory()))
+        n = 0
+        while n < 400 and not second.fired:
+            if not self.step():
+                break
+            n += 1
+        self.drain()
+        if not second.fired:
+            self.fail('C17.listen-pending-on-lost-connection',
+                      'listen() on an endpoint whose control connection was lost neither failed nor succeeded (open local listeners: %d)' % (
+                          len(sim.reactor.ports),))
+        if second.ok:
+            self.fail('C17.success-on-lost-connection', 'listen() succeeded although the control connection is gone')
+        if sim.reactor.ports:
+            self.fail('C17.listener-leaked-on-failure-disconnect-retry',
+                      'the second listen() failed and left %d local listeners open' % len(sim.reactor.ports))
 
     def retry_listen(self, ep):
         """after a rejected creation the same endpoint is asked to listen again: Tor must be given the port of the NEW listener"""
